@@ -22,32 +22,6 @@ func havocAudio(a *Audio) {
 	vHavoc("control", a.control)
 }
 
-// audioInv: field ranges maintained by every register writer and every clock (proved inductive: VerifAudioInv*)
-func audioInv(a *Audio) bool {
-	c1, c2, c3, c4, k := a.ch1, a.ch2, a.ch3, a.ch4, a.control
-	sq := func(s *square, max uint8) bool {
-		return s.duty < 4 && s.length <= max && s.initialVolume <= 15 && s.envelopeSweep <= 7 && s.frequency < 2048 &&
-			s.dutyIndex < 8 && s.volume <= 15
-	}
-	if !sq(c1, 64) || !sq(c2, 64) {
-		return false
-	}
-	if !(c1.sweepPeriod <= 7 && c1.sweepShift <= 7 && c1.shadowFrequency < 2048) {
-		return false
-	}
-	if !(c3.length <= 256 && c3.outputLevel <= 3 && c3.frequency < 2048 && c3.outputShift <= 4 && c3.position < 32 &&
-		c3.lastAccessed < 16 && c3.sampleBuffer <= 15) {
-		return false
-	}
-	if !(c4.length <= 64 && c4.initialVolume <= 15 && c4.envelopeSweep <= 7 && c4.shift <= 15 && c4.lfsrWidth <= 1 && c4.divisor <= 7 && c4.volume <= 15) {
-		return false
-	}
-	if !(k.volumeLeft <= 7 && k.volumeRight <= 7) {
-		return false
-	}
-	return a.ticks >= 1 && a.ticks <= 4194305 && a.frameSeqTicks <= 511
-}
-
 // register indices used by the harnesses: 0..20 = NR10,11,12,13,14, NR21,22,23,24, NR30,31,32,33,34, NR41,42,43,44, NR50,51, NR52
 var verifMask = [21]uint8{0x80, 0x3f, 0x00, 0xff, 0xbf, 0x3f, 0x00, 0xff, 0xbf, 0x7f, 0xff, 0x9f, 0xff, 0xbf, 0xff, 0x00, 0x00, 0xbf, 0x00, 0x00, 0x70}
 
